@@ -56,18 +56,23 @@ fn main() {
         if c.to_u128() != *id { report_found("Compact128 round trip", &format!("{id:#x}"), &format!("{:#x}", c.to_u128()), "same"); }
     }
     // the string hash itself: names that differ in ONE byte, or by swapping two ADJACENT bytes, at every position of names of
-    // every length up to 40 (all alignments w.r.t. the 8-byte blocks and the tail), several byte pairs -- must get distinct ids
+    // every length up to 72 (all alignments w.r.t. the 8-byte blocks and the tail), several byte pairs -- must get distinct ids
     let mut names_checked = 0u64;
     {
         use qbice_stable_type_id::StableTypeID;
         let id_of = |b: &[u8]| -> u128 { let st: &'static str = Box::leak(String::from_utf8(b.to_vec()).unwrap().into_boxed_str()); StableTypeID::from_unique_type_name(st).as_u128() };
-        let base: Vec<u8> = (0..40u8).map(|i| b'a' + (i % 23)).collect();
-        for len in 1..=40usize {
+        let base: Vec<u8> = (0..72u8).map(|i| b'a' + (i % 23)).collect();
+        for len in 1..=72usize {
             let name: Vec<u8> = base[..len].to_vec();
             let id0 = id_of(&name);
             digest = digest.rotate_left(7) ^ id0;
             for pos in 0..len {
-                for (x, y) in [(b'A', b'B'), (b'L', b'R'), (b'0', b'@'), (b'1', b'2')] {
+                // four hand-picked pairs + every pair that differs in exactly ONE bit (bits 0..6: the names stay ASCII) -- a byte that
+                // is merged with a neighbouring byte / the length by OR, AND or XOR loses exactly such differences
+                let c = name[pos];
+                let mut pairs = vec![(b'A', b'B'), (b'L', b'R'), (b'0', b'@'), (b'1', b'2')];
+                for bit in 0..7u8 { pairs.push((c & !(1 << bit), c | (1 << bit))); }
+                for (x, y) in pairs {
                     // single-byte change
                     let mut n1 = name.clone(); n1[pos] = x;
                     let mut n2 = name.clone(); n2[pos] = y;
